@@ -132,6 +132,8 @@ def plan(rng, idx, tier):
         'read_plan': io_plan(rng.sub('rio'), rng.sub('rio?').chance(0.5)),
         'write_plan': io_plan(rng.sub('wio'), rng.sub('wio?').chance(0.5)),
         'repeat_file': (srng.randrange(3) if (nfiles >= 1 and srng.chance(0.15)) else None),
+        'file_perm': (rng.sub('perm').sample(list(range(nfiles)), nfiles) if nfiles >= 2 and rng.sub('perm?').chance(0.5)
+                      else None),
         'subprocess': (idx % 300 == 11),
         'pipeline': (idx % 25 == 3),
         'pipe': {'capacity': rng.sub('pipe').pick([1, 2, 7, 16, 64]), 'sched_seed': rng.sub('pipe2').randrange(1 << 30),
@@ -175,6 +177,10 @@ def split_sources(trace):
 def file_order(trace, n):
     """Indices of the files on the command line; a file may be named twice."""
     order = list(range(n))
+    perm = trace.get('file_perm')
+    if perm:
+        # the command line need not name the files in lexicographic order
+        order = [i for i in perm if i < n] + [i for i in order if i not in perm]
     rep = trace.get('repeat_file')
     if rep is not None and n:
         order.append(rep % n)
